@@ -11,7 +11,6 @@ PROPS = {
         "harnesses": [
             {"pkg": "ord", "name": "VH_C20_ListAccept", "quick": {"params": {"U": 2, "FQ": 0}}, "thorough": {"params": {"U": 3, "FQ": 1}}},
             {"pkg": "ord", "name": "VH_C20_BidAccept", "quick": {"params": {"U": 2, "FQ": 0}}, "thorough": {"params": {"U": 2, "FQ": 1}}},
-            {"pkg": "ord", "name": "VH_C20_BidAccept", "thorough_only": True, "thorough": {"params": {"U": 4, "UMIN": 4, "FQ": 0}}},
             {"pkg": "ord", "name": "VH_C20_ListAccept2D", "quick": {"params": {"U2": 3, "FQ": 0}}, "thorough": {"params": {"U2": 4, "FQ": 1}}},
             {"pkg": "ord", "name": "VH_C20_BidAccept2D", "quick": {"params": {"U2": 3, "FQ": 0}}, "thorough": {"params": {"U2": 3, "FQ": 1}}},
             {"pkg": "ord", "name": "VH_C20_InscribeTwice"},
